@@ -94,3 +94,13 @@ theorem movedOut_nil_of (gs : List Grouped)
   | two f t => rfl
 
 end WD.Pipe
+
+namespace WD.Pipe
+
+theorem gsOf_noTo (levs : List LEv) (h : ∀ e ∈ levs, e.flag ≠ .movedTo) :
+    gsOf levs = (levs.filter (fun l => l.flag != .ignored)).map .one := by
+  unfold gsOf
+  rw [group_noTo levs h, List.filter_map]
+  congr 1
+
+end WD.Pipe
